@@ -6,6 +6,8 @@ construct unless a symbolic guard is involved:
   [E for v in IT if C]   ->  __sx_listcomp__(IT, lambda v: C, lambda v: E)
   S.join(X)              ->  __sx_join__(S, X)
   map(F, X)              ->  __sx_map__(F, X)
+  A in B / A not in B    ->  __sx_in__(A, B, negated)   (a symbolic container answers with a z3 condition)
+  frozenset(X) / set(X)  ->  __sx_mkset__(frozenset, X)  (symbolic elements: list-based set, == decided by z3)
   if C: X.append(E)      ->  X = __sx_cond_append__(X, lambda: C, lambda: E)
                              (statement with no else, X a local name bound to a list display in the
                               same function; the helper appends in place and returns X itself unless C
@@ -105,6 +107,32 @@ def sx_cond_append(lst, cond, elt):
     return lst
 
 
+def sx_in(x, y, negate=False):
+    f = getattr(y, '_sx_contains_', None)
+    if f is not None:
+        r = f(x)
+        if negate:
+            from .values import Not
+            return Not(r)
+        return r
+    return (x not in y) if negate else (x in y)
+
+
+def sx_mkset(ctor, *args):
+    if len(args) == 1 and not isinstance(args[0], (str, bytes)):
+        try:
+            elems = list(args[0])
+        except TypeError:
+            return ctor(*args)
+        if any(isinstance(e, (SymInt, SymBool)) for e in elems):
+            from .maps import SymSet
+            return SymSet(elems, frozen=ctor is frozenset)
+        return ctor(elems)
+    return ctor(*args)
+
+
+builtins.__sx_in__ = sx_in
+builtins.__sx_mkset__ = sx_mkset
 builtins.__sx_cond_append__ = sx_cond_append
 builtins.__sx_listcomp__ = sx_listcomp
 builtins.__sx_map__ = sx_map
@@ -113,7 +141,7 @@ builtins.__sx_join__ = sx_join
 
 class Rewriter(ast.NodeTransformer):
     def __init__(self):
-        self.counts = {'listcomp': 0, 'join': 0, 'map': 0, 'cond_append': 0}
+        self.counts = {'listcomp': 0, 'join': 0, 'map': 0, 'cond_append': 0, 'in': 0, 'set': 0}
         self.list_locals = [set()]
 
     def visit_FunctionDef(self, node):
@@ -172,9 +200,25 @@ class Rewriter(ast.NodeTransformer):
                        keywords=[])
         return ast.copy_location(new, node)
 
+    def visit_Compare(self, node):
+        self.generic_visit(node)
+        if len(node.ops) == 1 and isinstance(node.ops[0], (ast.In, ast.NotIn)):
+            self.counts['in'] += 1
+            new = ast.Call(func=ast.Name(id='__sx_in__', ctx=ast.Load()),
+                           args=[node.left, node.comparators[0], ast.Constant(value=isinstance(node.ops[0], ast.NotIn))],
+                           keywords=[])
+            return ast.copy_location(new, node)
+        return node
+
     def visit_Call(self, node):
         self.generic_visit(node)
         f = node.func
+        if isinstance(f, ast.Name) and f.id in ('frozenset', 'set') and len(node.args) == 1 and not node.keywords \
+                and not isinstance(node.args[0], ast.Starred):
+            self.counts['set'] += 1
+            new = ast.Call(func=ast.Name(id='__sx_mkset__', ctx=ast.Load()), args=[ast.Name(id=f.id, ctx=ast.Load())] + node.args,
+                           keywords=[])
+            return ast.copy_location(new, node)
         if isinstance(f, ast.Attribute) and f.attr == 'join' and len(node.args) == 1 and not node.keywords \
                 and not isinstance(node.args[0], ast.Starred):
             self.counts['join'] += 1
